@@ -2185,3 +2185,78 @@ Proof.
     rewrite (rq_bytes_exact_thm q0 ops H1 H2) in HC. lia. }
   lia.
 Qed.
+
+(* ========================================================================================== *)
+(* Part 7: the window counts the unread data of streams the peer has reset (243f816)             *)
+(* ========================================================================================== *)
+Lemma zsum_app a b : zsum (a ++ b) = zsum a + zsum b.
+Proof. apply gsum_app. Qed.
+
+Lemma rq_reachable_counter q : rq_reachable q -> rq_nbytes q = rq_held_bytes q /\ 0 <= rq_held_bytes q.
+Proof.
+  intros (q0 & ops & H1 & H2 & ->). split; [apply rq_bytes_exact_thm; assumption|apply held_bytes_nonneg].
+Qed.
+
+Lemma rq_counters_are_held qs : Forall rq_reachable qs -> map rq_nbytes qs = map rq_held_bytes qs.
+Proof.
+  intros H. apply map_ext_in. intros q Hq. eapply Forall_forall in H; [|exact Hq]. apply rq_reachable_counter, H.
+Qed.
+
+Lemma rq_filter_nonempty_sum qs : Forall rq_reachable qs ->
+  zsum (map rq_nbytes (filter (fun q => rq_nbytes q >? 0) qs)) = zsum (map rq_held_bytes qs).
+Proof.
+  induction 1 as [|q t Hq Ht IH]; [reflexivity|]. cbn [filter map].
+  destruct (rq_reachable_counter q Hq) as [E N]. unfold zsum in *. rewrite gsum_cons.
+  destruct (rq_nbytes q >? 0) eqn:Ep; cbn [map]; rewrite ?gsum_cons, IH; lia.
+Qed.
+
+Theorem rq_credit_formula_thm buf mapq detq :
+  0 <= buf < 4294967296 -> Forall rq_reachable mapq -> Forall rq_reachable detq ->
+  zsum (map rq_held_bytes mapq) + zsum (map rq_held_bytes detq) < 4294967296 ->
+  rq_credit buf mapq detq = Z.max 0 (buf - zsum (map rq_held_bytes mapq) - zsum (map rq_held_bytes detq)).
+Proof.
+  intros Hb Hm Hd Hs. unfold rq_credit.
+  assert (Hnn : Forall (fun n => 0 <= n) (map rq_nbytes mapq ++ map rq_nbytes (filter (fun q => rq_nbytes q >? 0) detq))).
+  { apply Forall_app. split; apply Forall_forall; intros n Hn; apply in_map_iff in Hn; destruct Hn as (q & <- & Hq).
+    - eapply Forall_forall in Hm; [|exact Hq]. destruct (rq_reachable_counter q Hm). lia.
+    - apply filter_In in Hq. lia. }
+  assert (Es : zsum (map rq_nbytes mapq ++ map rq_nbytes (filter (fun q => rq_nbytes q >? 0) detq)) =
+               zsum (map rq_held_bytes mapq) + zsum (map rq_held_bytes detq)).
+  { rewrite zsum_app, (rq_counters_are_held mapq Hm), (rq_filter_nonempty_sum detq Hd). reflexivity. }
+  rewrite rq_a_rwnd_formula; [rewrite Es; lia|assumption|assumption|lia].
+Qed.
+
+(* performing an inbound reset does not change the window: the bytes move from the map to the detached list *)
+Theorem rq_credit_reset_thm buf l1 q l2 detq :
+  0 <= buf < 4294967296 -> Forall rq_reachable (l1 ++ q :: l2) -> Forall rq_reachable detq ->
+  zsum (map rq_held_bytes (l1 ++ q :: l2)) + zsum (map rq_held_bytes detq) < 4294967296 ->
+  rq_credit buf (l1 ++ l2) (rq_detach q detq) = rq_credit buf (l1 ++ q :: l2) detq.
+Proof.
+  intros Hb Hm Hd Hs.
+  assert (Hq : rq_reachable q) by (apply Forall_app in Hm; destruct Hm as [_ H]; inversion H; assumption).
+  assert (Hm' : Forall rq_reachable (l1 ++ l2)).
+  { apply Forall_app in Hm. destruct Hm as [A B]. inversion B; subst. apply Forall_app. split; assumption. }
+  destruct (rq_reachable_counter q Hq) as [Eq Nq].
+  assert (Hd' : Forall rq_reachable (rq_detach q detq)).
+  { unfold rq_detach. destruct (rq_nbytes q >? 0); [apply Forall_snoc|]; assumption. }
+  assert (Ed : zsum (map rq_held_bytes (rq_detach q detq)) = zsum (map rq_held_bytes detq) + rq_held_bytes q).
+  { unfold rq_detach. destruct (rq_nbytes q >? 0) eqn:E; [|lia].
+    rewrite map_app, zsum_app. unfold zsum. cbn. lia. }
+  assert (Em : zsum (map rq_held_bytes (l1 ++ q :: l2)) = zsum (map rq_held_bytes (l1 ++ l2)) + rq_held_bytes q).
+  { rewrite !map_app, !zsum_app. cbn [map]. unfold zsum. rewrite gsum_cons. lia. }
+  rewrite (rq_credit_formula_thm buf (l1 ++ q :: l2) detq) by assumption.
+  rewrite (rq_credit_formula_thm buf (l1 ++ l2) (rq_detach q detq)) by (try assumption; lia).
+  lia.
+Qed.
+
+Theorem rq_credit_full_when_drained_thm buf mapq detq :
+  0 <= buf < 4294967296 -> Forall rq_reachable mapq -> Forall rq_reachable detq ->
+  Forall (fun q => rq_all_chunks q = []) mapq -> Forall (fun q => rq_all_chunks q = []) detq ->
+  rq_credit buf mapq detq = buf.
+Proof.
+  intros Hb Hm Hd Em Ed.
+  assert (Z0 : forall qs, Forall (fun q => rq_all_chunks q = []) qs -> zsum (map rq_held_bytes qs) = 0).
+  { induction 1 as [|q t Hq Ht IH]; [reflexivity|]. cbn [map]. unfold zsum in *. rewrite gsum_cons, IH.
+    unfold rq_held_bytes. rewrite Hq. reflexivity. }
+  rewrite rq_credit_formula_thm; try assumption; rewrite (Z0 _ Em), (Z0 _ Ed); lia.
+Qed.
